@@ -74,12 +74,13 @@ var propAnchorFiles = map[string][]string{
 // behaviour runs through although no call from the anchor files reaches them (the other side of an
 // agreement the property states), one line of reason each.
 var propExtraFiles = map[string][]string{
-	"C02": {"cmd/car/lib/verify.go"},                                                   // `car verify` is the command-line scanning reader
+	"C01": {"selectivecar.go"},                                                         // SelectiveCar Write/Dump is the root module's other writer
+	"C02": {"cmd/car/lib/verify.go", "v2/internal/store/resume.go"},                    // `car verify` is the command-line scanning reader; Resume is the scan that decides what a reopened store serves
 	"C10": {"cmd/car/index.go"},                                                        // `car index` is the command-line wrap (and its --version 1 the extraction)
 	"C03": {"v2/internal/store/resume.go", "v2/writer.go"},                             // Resume rebuilds the index from the payload: the third index-building walk
 	"C09": {"v2/blockstore/readonly.go", "v2/storage/storage.go"},                      // the open paths hand the caller's limits to the parsers
 	"C14": {"v2/index_gen.go"},                                                         // the offsets BlockReader reports are stated to agree with the ones index generation records
-	"C11": {"v2/index_gen.go"},                                                         // the regenerated index is held against the serialized one
+	"C11": {"v2/index_gen.go", "v2/selective.go"},                                      // the regenerated index is held against the serialized one; the selective writer serializes the index it built behind its own padding
 	"C13": {"v2/car.go"},                                                               // Inspect relies on the header validation of Header.ReadFrom
 	"C12": {"v2/internal/io/offset_write_seeker.go", "v2/internal/carv1/util/util.go"}, // what a resumed session writes goes through these
 }
@@ -1347,6 +1348,8 @@ func registerPitfallRules() {
 		def.Rules = append(def.Rules, RuleDef{ID: rid, Floor: 1, Doc: "no Go-level pitfall beyond those of the pinned tree in the functions the property's anchor files declare or reach: break that only leaves a switch, append or delete on a parameter, a failure tested and then lost, a result stored before its error is tested, a deferred error dropped, a limit compared after a signed conversion, a sentinel wrapped, a whole-struct comparison, a discarded pure result, a shadowed variable that takes the assignment meant for the outer one, a ranged slice reassigned in its loop, a fast path by dynamic type (baseline_pitfalls.txt)", Run: rulePitfalls})
 		gid := "R" + strings.TrimPrefix(id, "C") + "G"
 		def.Rules = append(def.Rules, RuleDef{ID: gid, Floor: 3, Doc: "no bound moved and no new rejection in the functions the property's anchor files declare or reach: every integer comparison that decides a branch, in canonical form (affine expression over stable atoms, split point), splits where the pinned tree splits (baseline_guards.txt), and no comparison of a quantity the function did not compare before returns an error of its own", Run: ruleGuards})
+		wid := "R" + strings.TrimPrefix(id, "C") + "W"
+		def.Rules = append(def.Rules, RuleDef{ID: wid, Floor: 3, Doc: "no field read or call exchanged for a like-typed sibling in the functions the property's anchor files declare or reach: per function, the struct fields read and the functions called are held against the pinned tree (baseline_siblings.txt); a field read more often while another field of the same struct and type is read less often (one side of the exchange complete), or a new call while a call with the same parameter and result types is lost, is reported (siblings.go)", Run: ruleSiblings})
 		sid := "R" + strings.TrimPrefix(id, "C") + "S"
 		def.Rules = append(def.Rules, RuleDef{ID: sid, Floor: 1, Doc: "no necessary condition of another property is violated or undecided in a function this property's anchor files declare or reach: every function-keyed obligation of every other property's rules inside the reach is reported here too, with the rule and property it comes from (shared.go)", Run: ruleShared})
 		registry[id] = def
